@@ -1,0 +1,16 @@
+//go:build verif
+
+package shutterservice
+
+import (
+	"github.com/jackc/pgx/v4/pgxpool"
+
+	"github.com/shutter-network/rolling-shutter/rolling-shutter/p2p"
+)
+
+// VerifGossipvalHandlers returns the two shutter-service message handlers exactly as
+// Keyper.Start registers them (their dbpool field is unexported). Add-only accessor for the
+// verification harness (family gossipval, properties C04/C05).
+func VerifGossipvalHandlers(dbpool *pgxpool.Pool) (keyShares p2p.MessageHandler, keys p2p.MessageHandler) {
+	return &DecryptionKeySharesHandler{dbpool}, &DecryptionKeysHandler{dbpool}
+}
